@@ -41,7 +41,7 @@ def v32(rng):
 
 
 def gen_state(rng, big=False, now=1700000000):
-    """A well-formed state together with the array geometry it needs.  `big`: positions around 2^14 / 2^21."""
+    """A well-formed state together with the array geometry it needs.  `big`: 1 = positions around 2^14, 2 = around 2^21 (slow in the model: about a minute)."""
     nd = rng.randrange(1, 5)
     nl = rng.choice([1, 1, 2, 2, 3, 4, 6])
     hs = rng.choice([16, 16, 16, 8, 4, 2])
@@ -52,8 +52,10 @@ def gen_state(rng, big=False, now=1700000000):
         split = [1] * nl
     # geometry of the parity positions
     r = rng.random()
-    if big and r < 0.5:
-        bm = rng.choice([2 ** 14 - 1, 2 ** 14, 2 ** 14 + 1, 2 ** 14 + 2, 2 ** 21 - 1, 2 ** 21, 2 ** 21 + 1, 2 ** 21 + 2])
+    if big == 1 and r < 0.8:
+        bm = rng.choice([2 ** 14 - 1, 2 ** 14, 2 ** 14 + 1, 2 ** 14 + 2])
+    elif big == 2:
+        bm = rng.choice([2 ** 21 - 1, 2 ** 21, 2 ** 21 + 1, 2 ** 21 + 2])
     elif r < 0.25:
         bm = rng.choice([126, 127, 128, 129, 130, 255, 256, 257])
     elif r < 0.3:
@@ -62,6 +64,7 @@ def gen_state(rng, big=False, now=1700000000):
         bm = rng.randrange(1, 40)
     names = ['d%d' % (i + 1) for i in range(nd)]
     disks = []
+    useds = []
     top_owner = rng.randrange(nd)
     for di in range(nd):
         # positions used by the files of this disk, and by its deleted blocks
@@ -127,7 +130,15 @@ def gen_state(rng, big=False, now=1700000000):
                     if p + j < bm and (p + j) not in used:
                         free.append(p + j)
             deleted = [(p, rbytes(rng, hs)) for p in sorted(set(free))]
+        useds.append(set(used))
         disks.append(dict(name=names[di].encode(), files=files, links=links, dirs=dirs, deleted=deleted))
+    # DELETED blocks that survive the save: at positions where another disk has a file block
+    allused = set().union(*useds) if useds else set()
+    for di, d in enumerate(disks):
+        cand = sorted(allused - useds[di] - {p for p, _ in d['deleted']})
+        if cand and rng.random() < 0.6:
+            pick = rng.sample(cand, min(len(cand), rng.choice([1, 2, 5])))
+            d['deleted'] = sorted(d['deleted'] + [(p, rbytes(rng, hs)) for p in pick])
     # maps: every disk, in a random order, distinct positions
     order = list(range(nd))
     rng.shuffle(order)
